@@ -3,6 +3,7 @@ import Qentem.Proofs.TmplText
 import Qentem.Proofs.TmplParseSegs
 import Qentem.Proofs.TmplRenderSegs
 import Qentem.Proofs.TmplBlockIf
+import Qentem.Proofs.TmplBlocks
 /-!
 # C02 — rendering a well-formed template yields the documented expansion
 
@@ -156,6 +157,34 @@ example : Blk.ok (.ifc [49, 32, 62, 32, 48] [.var [120]]) ∧ Blk.pathOk (.ifc [
     exact ⟨by intro x hx; simp at hx; subst hx; unfold plainU; decide, by simp, by simp⟩
   · intro s hs; simp at hs; subst hs
     exact ⟨[120], [], by simp [brk], by simp, by intro x hx; simp at hx; subst hx; decide, by intro k hk; cases hk⟩
+
+/-- stage 5 of `RenderParsePrint`: block TREES.  `BTs` = sequences of segment runs (stage 3) and
+`<if case="e">…<elseif case="e2" />…<else />…</if>` chains of any length whose bodies are again
+block trees (any nesting depth).  Case texts free of `{ < } "`; `caseOk`: every case text of a
+chain with more than one branch scans to a non-empty list (for a non-expression the code prints
+nothing / treats a later empty case as `else`, see the observations in notes/design-tmpl.md).
+For every value, number reader, formatter and escape switch: parse + render = the documented
+expansion.  Proof: mutual structural recursion over the tree for the parser (`parse_bt`,
+`parse_bts`, `parse_tail`, parametric in the stack of open containers), the renderer
+(`render_bt`, `render_bts`, `render_tail`) and the reference interpreter (`expand_bt`, …). -/
+theorem render_parse_print_tree {R : Type} [RealLike R] (cx : RCtx R) (sx : SpecCtx R)
+    (cfg : ScanCfg R) (bs : BTs) (hg : cx.guardIndexRead = true) (same : SameCtx cx sx)
+    (hrn : cfg.readNum = cx.readNum)
+    (hc : cx.content = printList (btsTpl bs)) (hok : bs.ok) (hpath : bs.pathOk)
+    (hcase : bs.caseOk cfg.readNum)
+    (hn : cx.content.length + 16 < 4294967296) (fuel fuel' : Nat) :
+    (parse cfg cx.content).bind (fun tags => renderTop cx tags (rneedBTs bs + rcostBTs bs + fuel)) =
+      .ok (expand sx (btsTpl bs) (eneedBTs bs + fuel')) := by
+  rw [printBTs_eq] at hc
+  have hn' := hn
+  rw [hc] at hn'
+  have hp := Qentem.Tmpl.parse_tree cfg bs hok hn'
+  rw [← hc] at hp
+  rw [hp]
+  simp only [Except.bind]
+  rw [show rneedBTs bs + rcostBTs bs + fuel = (rneedBTs bs + fuel) + rcostBTs bs by omega,
+    renderTop_tree cx cfg hg hrn bs hc hok hpath hcase _ (by omega), expand, same.eq,
+    expand_bts cx bs _ (by omega)]
 
 /-- side conditions under which the document determines the output (the generator of
 `checks/c02.py` produces exactly such templates) — informal list kept next to the statement:
